@@ -146,6 +146,26 @@ fn main() {
                 }
             }
         }
+        Some("replay-seq") => {
+            // vmon replay-seq <engine> <hex> <hex> ...: run the checker on every input in order (same thread,
+            // same process) and report the failures of the LAST one - for violations that depend on the calls before
+            let name = args.get(2).expect("engine name");
+            let e = engines.iter().find(|e| e.name == *name).unwrap_or_else(|| {
+                eprintln!("unknown engine {}", name);
+                std::process::exit(2)
+            });
+            let Some(f) = e.replay_bytes else {
+                eprintln!("engine {} has no byte replay", name);
+                std::process::exit(2)
+            };
+            let mut fails = vec![];
+            for h in &args[3..] {
+                fails = f(&mon::unhex(h));
+            }
+            let out: Vec<_> = fails.iter().map(|f| json!({"clause": f.clause, "detail": f.detail})).collect();
+            println!("{}", json!({"engine": name, "sequence_length": args.len().saturating_sub(3), "fails": out}));
+            std::process::exit(if fails.is_empty() { 0 } else { 1 });
+        }
         Some("shrink") => {
             // vmon shrink <engine> <clause> <hex>: minimise a failing byte case for one clause
             let name = args.get(2).expect("engine name");
